@@ -718,14 +718,20 @@ vbi3_raw_decoder_remove_services
 {
 	_vbi3_raw_decoder_job *job;
 	unsigned int job_num;
+	vbi_service_set readd;
 
 	assert (NULL != rd);
 
 	job = rd->jobs;
 	job_num = 0;
+	readd = 0;
 
 	while (job_num < rd->n_jobs) {
 		if (job->id & services) {
+			/* A merged job (both fields, both levels) goes as a
+			   whole, what remains of it is added again below. */
+			readd |= job->id & ~services;
+
 			if (rd->pattern)
                                 remove_job_from_pattern (rd, job_num);
 
@@ -741,7 +747,10 @@ vbi3_raw_decoder_remove_services
 		}
 	}
 
-	rd->services &= ~services;
+	rd->services &= ~(services | readd);
+
+	if (0 != readd)
+		vbi3_raw_decoder_add_services (rd, readd, /* strict */ 0);
 
 	return rd->services;
 }
